@@ -321,3 +321,8 @@ Qed.
 
 Theorem list_eval_spec : forall l, run_list (of_list l) M_eval [] = Ok (PV (VList l)).
 Proof. intros l. cbn [run_list]. rewrite collect_of_list. reflexivity. Qed.
+
+(* map.replaceMap(f) is f applied to the map *)
+Theorem replaceMap_spec : forall e body,
+  run_map e M_replaceMap [AF 1 body] = okV (ceval [VMap e] body).
+Proof. intros e body. reflexivity. Qed.
